@@ -149,6 +149,33 @@ def gen_brim(rng):
                 placements=pl, kind="valid", style="brim")
 
 
+def gen_nullres(rng):
+    """Reservation lists containing EMPTY reservations (slice(k, k)) placed just before, inside and just
+    after real ones, in shuffled order, with requests long enough to reach across them: an empty
+    reservation overlaps nothing and must not stop the scan from seeing the real one behind it."""
+    cap = rng.choice([8, 10, 12, 16])
+    cons = []
+    if rng.random() < 0.4:
+        cons.append(["align", 0, rng.choice([1, 2, 4])])
+    real = []
+    for _ in range(rng.randint(1, 3)):
+        s0 = rng.randint(1, cap - 1)
+        real.append([s0, min(cap, s0 + rng.randint(1, 3))])
+    for s0, e0 in real:
+        loc = rng.choice([None, None, [0, 0]])
+        cons.append(["reserve", 0, s0, e0, loc])
+        for k in {max(0, s0 - 1), s0, rng.randint(0, cap)}:
+            if rng.random() < 0.7:
+                cons.append(["reserve", 0, k, k, rng.choice([None, [0, 0]])])
+    rng.shuffle(cons)
+    vres, pl = [], []
+    for v in range(rng.randint(1, 4)):
+        vres.append([v + 1, [[0, rng.choice([0, 1, 2, 3, 4, 5])]]])
+        pl.append([v + 1, [0, 0]])
+    return dict(machine=dict(w=1, h=1, res=[[0, cap]], exc=[], dead=[]), vres=vres, constraints=cons,
+                placements=pl, kind="valid", style="nullres")
+
+
 # ------------------------------------------------------------------ Coq literals
 def coq_case(c):
     m = c["machine"]
@@ -284,6 +311,7 @@ def run(chk, args):
     else:
         n = 600 if chk.tier == "quick" else 20000
         cases = [gen_tight(chk.rng) if i % 4 == 1 else gen_brim(chk.rng) if i % 8 == 2
+                 else gen_nullres(chk.rng) if i % 8 == 4
                  else gen_case(chk.rng, malformed=(i % 8 == 7)) for i in range(n)]
     corpus = lib.os.path.join(lib.VERIF, "corpus", "C05.json")
     if lib.os.path.exists(corpus):
